@@ -96,13 +96,33 @@ func rulePoolWhoMay(c *Ctx, r *Rule) {
 
 // consumes: on every returning path from `from` (nil = entry) in fn, value ev is either given
 // back to the pool or enqueued into a stream, directly or through a callee that consumes it.
-func (c *Ctx) consumeSink(ev ssa.Value, depth int) func(in ssa.Instruction) bool {
+func (c *Ctx) consumeSink(ev0 ssa.Value, depth int) func(in ssa.Instruction) bool {
 	pr := c.pool()
+	// the event may live in a variable cell (captured by a function literal): its loads are the event too
+	same := map[ssa.Value]bool{ev0: true}
+	if refs := ev0.Referrers(); refs != nil {
+		for _, rf := range *refs {
+			if st, ok := rf.(*ssa.Store); ok && st.Val == ev0 {
+				if al, isAl := st.Addr.(*ssa.Alloc); isAl && singleStore(al) == ev0 {
+					if r2 := al.Referrers(); r2 != nil {
+						for _, ld := range *r2 {
+							if u, isU := ld.(*ssa.UnOp); isU && u.Op == token.MUL {
+								same[u] = true
+							}
+						}
+					}
+				}
+			}
+		}
+	}
+	isEv := func(v ssa.Value) bool { return same[v] }
+	ev := ev0
+	_ = ev
 	return func(in ssa.Instruction) bool {
 		switch x := in.(type) {
 		case *ssa.Store:
 			// enqueue: stream.last = ev / stream.first = ev
-			if x.Val == ev {
+			if isEv(x.Val) {
 				if o, f, _, ok := fieldOf(x.Addr); ok && (isField(o, f, pipelinePkg, "stream", "last")) {
 					return true
 				}
@@ -112,12 +132,12 @@ func (c *Ctx) consumeSink(ev ssa.Value, depth int) func(in ssa.Instruction) bool
 				return false
 			}
 			args := x.Common().Args
-			if pr != nil && invokesMethod(x, pr.back) && len(args) == 1 && args[0] == ev {
+			if pr != nil && invokesMethod(x, pr.back) && len(args) == 1 && isEv(args[0]) {
 				return true
 			}
 			if f := calleeFunc(x); f != nil && depth > 0 && c.inModule(f) && f.Blocks != nil {
 				for i, a := range args {
-					if a == ev && i < len(f.Params) {
+					if isEv(a) && i < len(f.Params) {
 						if ok, _ := c.mustPassBeforeReturn(f, nil, c.consumeSink(f.Params[i], depth-1)); ok {
 							return true
 						}
